@@ -13,7 +13,7 @@ func init() {
 	registry["C05X"] = runC05Exhaustive
 }
 
-var gatedTTLs = []time.Duration{0, 0, 0, time.Hour, 2 * time.Hour, -time.Second}
+var gatedTTLs = []time.Duration{0, 0, 0, time.Hour, 2 * time.Hour, -time.Second, 250 * 365 * 24 * time.Hour}
 
 // runGatedRandom: random single-client sequences with explicit applier lag; -arg names the property whose mismatch classes are reported.
 func runGatedRandom(c *Ctx) {
